@@ -63,90 +63,106 @@ def chargeOf (word : String) (n : Nat) : Option (List Bool) :=
   else if word == "one" then some (List.replicate n true)
   else none
 
-/-- the build step of a library call with graph arguments (`ns`: the namespace, read for the charge word of
-`tseitin` only — the call template keeps the computed list opaque) -/
+/-! one handler per generator: positional and keyword values at the positions the generator expects (`ns`: the
+namespace, read for the charge word of `tseitin` only — the call template keeps the computed list opaque) -/
+
+abbrev GHandler := GraphEnv → Ns → Call → Option Built
+
+def gClique : GHandler := fun env _ c =>
+  match c.pos with
+  | [.graph "simple" t, .int k, .bool sb] => some (withS (env.simple 0 t) fun G => Fam.G2.cliqueFormula G k sb)
+  | _ => none
+def gBinClique : GHandler := fun env _ c =>
+  match c.pos with
+  | [.graph "simple" t, .int k] => some (withS (env.simple 0 t) fun G => Fam.G2.binaryCliqueFormula G k true)
+  | _ => none
+def gRamseyWitness : GHandler := fun env _ c =>
+  match c.pos with
+  | [.graph "simple" t, .int k, .int s] =>
+    some (withS (env.simple 0 t) fun G => Fam.G2.ramseyWitnessFormula G k s true)
+  | _ => none
+def gColoring : GHandler := fun env _ c =>
+  match c.pos with
+  | [.graph "simple" t, .int k] => some (withS (env.simple 0 t) fun G => Fam.coloring G k true)
+  | _ => none
+def gEvenColoring : GHandler := fun env _ c =>
+  match c.pos with
+  | [.graph "simple" t] => some (withS (env.simple 0 t) fun G => Fam.evenColoring G)
+  | _ => none
+def gDomset : GHandler := fun env _ c =>
+  match c.pos, kwBool c "alternative" with
+  | [.graph "simple" t, .int d], some a => some (withS (env.simple 0 t) fun G => Fam.domset G d a)
+  | _, _ => none
+def gTiling : GHandler := fun env _ c =>
+  match c.pos with
+  | [.graph "simple" t] => some (withS (env.simple 0 t) fun G => .ok (Fam.tiling G))
+  | _ => none
+def gMatching : GHandler := fun env _ c =>
+  match c.pos with
+  | [.graph "simple" t] => some (withS (env.simple 0 t) fun G => .ok (Fam.pmF G))
+  | _ => none
+def gAutomorphism : GHandler := fun env _ c =>
+  match c.pos with
+  | [.graph "simple" t] => some (withS (env.simple 0 t) fun G => .ok (Fam.G2.graphAutomorphism G))
+  | _ => none
+def gIsomorphism : GHandler := fun env _ c =>
+  match c.pos with
+  | [.graph "simple" t1, .graph "simple" t2] =>
+    some (match env.simple 0 t1, env.simple 1 t2 with
+          | some G1, some G2 => .result (.ok (Fam.G2.graphIsomorphism G1 G2))
+          | _, _ => .refused)
+  | _ => none
+def gSubgraph : GHandler := fun env _ c =>
+  match c.pos, kwBool c "induced", kwBool c "symbreak" with
+  | [.graph "simple" t1, .graph "simple" t2], some ind, some sb =>
+    some (match env.simple 0 t1, env.simple 1 t2 with
+          | some G, some H => .result (.ok (Fam.G2.subgraphFormula G H ind sb))
+          | _, _ => .refused)
+  | _, _, _ => none
+def gPebbling : GHandler := fun env _ c =>
+  match c.pos with
+  | [.graph "dag" t] => some (withD (env.dag 0 t) fun D => Fam.Pebbling.pebbling D)
+  | _ => none
+def gStone : GHandler := fun env _ c =>
+  match c.pos with
+  | [.graph "dag" t, .int s] => some (withD (env.dag 0 t) fun D => Fam.Pebbling.stone D s)
+  | _ => none
+def gGraphPhp : GHandler := fun env _ c =>
+  match c.pos, kwBool c "functional", kwBool c "onto" with
+  | [.graph "bipartite" t], some f, some o => some (withB (env.bip 0 t) fun B => .ok (Fam.gphp B f o))
+  | _, _, _ => none
+def gGraphOrdering : GHandler := fun env _ c =>
+  match c.pos with
+  | [.graph "simple" t, .bool tot, .bool sm, .bool pl, kn] =>
+    (match knuthOf kn with
+     | some k => some (withS (env.simple 0 t) fun G => .ok (Fam.Ordering.gop G tot sm pl k))
+     | none => none)
+  | _ => none
+def gTseitin : GHandler := fun env ns c =>
+  match c.pos, ns.lookup "charge" with
+  | [.graph "simple" t, _], some (.str w) =>
+    (match env.simple 0 t with
+     | none => some .refused
+     | some G =>
+       match chargeOf w G.n with
+       | some ch => some (.result (.ok (Fam.tseitin G (some ch))))
+       | none => none)
+  | _, _ => none
+
+/-- generator name ↦ handler -/
+def gHandlers : List (String × GHandler) :=
+  [("CliqueFormula", gClique), ("BinaryCliqueFormula", gBinClique), ("RamseyWitnessFormula", gRamseyWitness),
+   ("GraphColoringFormula", gColoring), ("EvenColoringFormula", gEvenColoring), ("DominatingSet", gDomset),
+   ("Tiling", gTiling), ("PerfectMatchingPrinciple", gMatching), ("GraphAutomorphism", gAutomorphism),
+   ("GraphIsomorphism", gIsomorphism), ("SubgraphFormula", gSubgraph), ("PebblingFormula", gPebbling),
+   ("StoneFormula", gStone), ("GraphPigeonholePrinciple", gGraphPhp), ("GraphOrderingPrinciple", gGraphOrdering),
+   ("TseitinFormula", gTseitin)]
+
+/-- the build step of a library call with graph arguments -/
 def evalCallG (env : GraphEnv) (ns : Ns) (c : Call) : Option Built :=
-  if c.fn == "CliqueFormula" then
-    (match c.pos with
-     | [.graph "simple" t, .int k, .bool sb] => some (withS (env.simple 0 t) fun G => Fam.G2.cliqueFormula G k sb)
-     | _ => none)
-  else if c.fn == "BinaryCliqueFormula" then
-    (match c.pos with
-     | [.graph "simple" t, .int k] => some (withS (env.simple 0 t) fun G => Fam.G2.binaryCliqueFormula G k true)
-     | _ => none)
-  else if c.fn == "RamseyWitnessFormula" then
-    (match c.pos with
-     | [.graph "simple" t, .int k, .int s] =>
-       some (withS (env.simple 0 t) fun G => Fam.G2.ramseyWitnessFormula G k s true)
-     | _ => none)
-  else if c.fn == "GraphColoringFormula" then
-    (match c.pos with
-     | [.graph "simple" t, .int k] => some (withS (env.simple 0 t) fun G => Fam.coloring G k true)
-     | _ => none)
-  else if c.fn == "EvenColoringFormula" then
-    (match c.pos with
-     | [.graph "simple" t] => some (withS (env.simple 0 t) fun G => Fam.evenColoring G)
-     | _ => none)
-  else if c.fn == "DominatingSet" then
-    (match c.pos, kwBool c "alternative" with
-     | [.graph "simple" t, .int d], some a => some (withS (env.simple 0 t) fun G => Fam.domset G d a)
-     | _, _ => none)
-  else if c.fn == "Tiling" then
-    (match c.pos with
-     | [.graph "simple" t] => some (withS (env.simple 0 t) fun G => .ok (Fam.tiling G))
-     | _ => none)
-  else if c.fn == "PerfectMatchingPrinciple" then
-    (match c.pos with
-     | [.graph "simple" t] => some (withS (env.simple 0 t) fun G => .ok (Fam.pmF G))
-     | _ => none)
-  else if c.fn == "GraphAutomorphism" then
-    (match c.pos with
-     | [.graph "simple" t] => some (withS (env.simple 0 t) fun G => .ok (Fam.G2.graphAutomorphism G))
-     | _ => none)
-  else if c.fn == "GraphIsomorphism" then
-    (match c.pos with
-     | [.graph "simple" t1, .graph "simple" t2] =>
-       some (match env.simple 0 t1, env.simple 1 t2 with
-             | some G1, some G2 => .result (.ok (Fam.G2.graphIsomorphism G1 G2))
-             | _, _ => .refused)
-     | _ => none)
-  else if c.fn == "SubgraphFormula" then
-    (match c.pos, kwBool c "induced", kwBool c "symbreak" with
-     | [.graph "simple" t1, .graph "simple" t2], some ind, some sb =>
-       some (match env.simple 0 t1, env.simple 1 t2 with
-             | some G, some H => .result (.ok (Fam.G2.subgraphFormula G H ind sb))
-             | _, _ => .refused)
-     | _, _, _ => none)
-  else if c.fn == "PebblingFormula" then
-    (match c.pos with
-     | [.graph "dag" t] => some (withD (env.dag 0 t) fun D => Fam.Pebbling.pebbling D)
-     | _ => none)
-  else if c.fn == "StoneFormula" then
-    (match c.pos with
-     | [.graph "dag" t, .int s] => some (withD (env.dag 0 t) fun D => Fam.Pebbling.stone D s)
-     | _ => none)
-  else if c.fn == "GraphPigeonholePrinciple" then
-    (match c.pos, kwBool c "functional", kwBool c "onto" with
-     | [.graph "bipartite" t], some f, some o => some (withB (env.bip 0 t) fun B => .ok (Fam.gphp B f o))
-     | _, _, _ => none)
-  else if c.fn == "GraphOrderingPrinciple" then
-    (match c.pos with
-     | [.graph "simple" t, .bool tot, .bool sm, .bool pl, kn] =>
-       (match knuthOf kn with
-        | some k => some (withS (env.simple 0 t) fun G => .ok (Fam.Ordering.gop G tot sm pl k))
-        | none => none)
-     | _ => none)
-  else if c.fn == "TseitinFormula" then
-    (match c.pos, ns.lookup "charge" with
-     | [.graph "simple" t, _], some (.str w) =>
-       (match env.simple 0 t with
-        | none => some .refused
-        | some G =>
-          match chargeOf w G.n with
-          | some ch => some (.result (.ok (Fam.tseitin G (some ch))))
-          | none => none)
-     | _, _ => none)
-  else none
+  match gHandlers.lookup c.fn with
+  | some f => f env ns c
+  | none => none
 
 /-- the build step of any mapped call: generators with graph arguments, then the numeric ones (`g`: Pitfall's graph) -/
 def evalCallAny (env : GraphEnv) (g : SimpleG) (ns : Ns) (c : Call) : Option Built :=
